@@ -80,6 +80,8 @@ func (impl Implementation) Dormlq(side blas.Side, trans blas.Transpose, m, n, k 
 	}
 
 	switch {
+	case ldc < n:
+		panic(badLdC)
 	case left && len(a) < (k-1)*lda+m:
 		panic(shortA)
 	case !left && len(a) < (k-1)*lda+n:
